@@ -22,7 +22,7 @@ from concurrent.futures import ThreadPoolExecutor
 import vlib
 from vlib import KINDS, NPROC, OUT, SPEC, JAVA_CP, build, cfg_line, log, sh, judge_batch, tlc_trace, max_keys
 
-C06_TAGS = ["C01", "C02", "C03", "C09", "C17", "C18", "SPEC", "C06"]
+C06_TAGS = ["C01", "C02", "C03", "C09", "C11", "C17", "C18", "SPEC", "C06"]
 
 METHODS = {
     "lru": ["ins", "insr", "era", "erar", "find", "findr", "findf", "size", "empty", "capacity"],
@@ -76,6 +76,15 @@ def gen_program(rng, kind, nthreads, ncalls):
     cfg = dict(kind=kind, cap=cap, ts=1, mlf=rng.choice([50, 100, 400]), ttl=rng.choice([5, 50]), tick=2, rnum=1, rsh=1,
                fl=rng.choice([0, 0, 1]), keys=keys)
     pre = [gen_call(rng, kind, keys, "ins") for _ in range(rng.randint(0, cap + 1))]
+    if kind in vlib.TTL_KINDS and rng.random() < 0.4:
+        # some entries are already expired (and not yet removed) when the threads start
+        short = 2
+        if kind == "tlru":
+            pre = ["ins %d %d 3 %d" % (rng.randint(1, keys), rng.randint(1, 9), short) for _ in range(rng.randint(1, cap + 1))]
+            pre += [gen_call(rng, kind, keys, "ins") for _ in range(rng.randint(0, 1))]
+            pre.append("tick %d" % rng.choice([short, short + 1]))
+        else:
+            pre.append("tick %d" % rng.choice([cfg["ttl"], cfg["ttl"] + 1]))
     thr = [[gen_call(rng, kind, keys) for _ in range(ncalls)] for _t in range(nthreads)]
     post = []
     if kind in vlib.TTL_KINDS:
